@@ -102,7 +102,7 @@ def specs(rng, tier, wid, nw, env):
         for kk in (range(0, 1300) if q else range(0, 2600)):
             k += 1
             if k % nw == wid: yield ('copyat', g, kk, rng.choice(SEEDS), rng.getrandbits(48))
-    shapes = [('urandomb', 64), ('urandomb', 1), ('urandomb', 32), ('urandomb', 100), ('urandomb', 8), ('ui_b', 64), ('ui_b', 17), ('urandomm', 7), ('urandomm', 1000), ('urandomm', (1 << 64) - 59), ('urandomm', 3 << 62), ('urandomm', (1 << 33) + 1), ('ui_m', 10), ('mpf', 64), ('lchalf', 0), ('mpn_b', 128)]
+    shapes = [('urandomb', 64), ('urandomb', 1), ('urandomb', 32), ('urandomb', 100), ('urandomb', 8), ('ui_b', 64), ('ui_b', 17), ('urandomm', 7), ('urandomm', 1000), ('urandomm', (1 << 64) - 59), ('urandomm', 3 << 62), ('urandomm', (1 << 33) + 1), ('urandomm', (1 << 65) - 1), ('urandomm', 3 << 63), ('urandomm', (1 << 65) + (1 << 64) - 1), ('urandomm', (1 << 64) + 1), ('urandomm', (1 << 128) + (1 << 127) - 1), ('urandomm', (1 << 127) + (1 << 64)), ('ui_m', 10), ('ui_m', (1 << 63) + 1), ('ui_m', 3 << 62), ('ui_m', (1 << 64) - 1), ('mpf', 64), ('lchalf', 0), ('mpn_b', 128)]
     for g in GENS:
         for sh in shapes:
             for rep in range(1 if q else 4):
